@@ -329,7 +329,12 @@ class DMRGEngine(IterativeSweeps):
         if not self.finite:  # iDMRG: need energy density
             Es = self.update_stats['E_total']
             age = self.update_stats['age']
-            delta = min(1 + 2 * self.env.L, len(age))
+            # Compare with the same update one sweep earlier. Optimization sweeps record the energy *before* the
+            # truncation, environment sweeps the contraction with the already *updated* environments, so both
+            # updates need to belong to the same kind of sweep: for a single environment sweep per iteration the
+            # previous sweep of that kind is a whole iteration back.
+            sweeps_back = 1 if update_env != 1 else self.N_sweeps_check + update_env
+            delta = min(1 + 2 * self.env.L * sweeps_back, len(age))
             growth = age[-1] - age[-delta]
             E = (Es[-1] - Es[-delta]) / growth
         else:
